@@ -55,4 +55,9 @@ func genFixes(repo string) {
 	pa, sp := sq("datatype/roi", "Data", "Partition"), sq("datatype/roi", "Data", "SimplePartition")
 	emit("roiPartitionUsesVersionExtents", "Partition and SimplePartition lay out their layers from the z extents of the spans stored at the requested version (C02)",
 		strings.Contains(pa, "minZ,maxZ,err:=d.zExtents(ctx)") && strings.Contains(sp, "minZ,maxZ,err:=d.zExtents(ctx)") && !strings.Contains(pa, "d.MinZ") && !strings.Contains(sp, "d.MinZ") && !strings.Contains(pa, "d.MaxZ") && !strings.Contains(sp, "d.MaxZ"), pa != "" && sp != "")
+	bp, bd := sq("storage/badger", "BadgerDB", "Put"), sq("storage/badger", "BadgerDB", "Delete")
+	emit("badgerPutDeleteSingleTxn", "a versioned single-key Put writes the value and clears the deletion marker in ONE badger transaction, a versioned Delete removes the value and sets the marker in ONE transaction (C04: no crash point between them; C11: no other request between them)",
+		strings.Contains(bp, "db.bdp.Update(func(txn*badger.Txn)error{iferr:=txn.Set(key,v);err!=nil{returnerr}iferr:=txn.Delete(tombstoneKey);err!=nil{returnerr}returnnil})") &&
+			strings.Contains(bd, "db.bdp.Update(func(txn*badger.Txn)error{iferr:=txn.Delete(key);err!=nil{returnerr}iferr:=txn.Set(tombstoneKey,dvid.EmptyValue());err!=nil{returnerr}returnnil})") &&
+			strings.Count(bp, "db.bdp.Update(") == 2 && strings.Count(bd, "db.bdp.Update(") == 2 && !strings.Contains(bp, "Raw") && !strings.Contains(bd, "Raw"), bp != "" && bd != "")
 }
